@@ -89,7 +89,7 @@ def execute(job):
         if q["down"]:
             argv += ["--downsample", str(q["down"])]
         if q["mf"]:
-            argv += ["--motion_filter", repr(0.5 * q["mf"] * u), "1000"]
+            argv += ["--motion_filter", repr(0.5 * q["mf"] * u), "100" if q["mf"] == 2001 else "1000"]
         if q["merge"]:
             argv += ["--merge"]
         if q["toff"]:
